@@ -33,18 +33,89 @@ def run(ctx):
     if len(rets) != 1 or not isinstance(rets[0].ast.value, ast.Tuple) or len(rets[0].ast.value.elts) != 3:
         ctx.und("R36.1", key, "return shape not recognised", rp)
     else:
-        els = [inline_at(cfg, rd, rets[0].id, e, depth=1) for e in rets[0].ast.value.elts]
-        nd = inline_at(cfg, rd, rets[0].id, rets[0].ast.value.elts[2], depth=1)
-        mean_t, chi_t, nd_t = [src(e).replace(" ", "") for e in els]
-        nd_name = src(rets[0].ast.value.elts[2])
-        ctx.check("R36.1", f"{rp.key}::mean = sum(x)/size", mean_t in (f"jnp.sum({a0})/{a0}.size", f"{a0}.sum()/{a0}.size", f"jnp.mean({a0})"), mean_t, rp)
-        ctx.check("R36.1", f"{rp.key}::reduced chi-square = vdot(x, x).real/ndof",
-                  chi_t in (f"jnp.vdot({a0},{a0}).real/{nd_name}", f"jnp.sum(jnp.abs({a0})**2)/{nd_name}"), chi_t, rp)
-        okk = isinstance(nd, ast.IfExp) and src(nd.test) in (f"jnp.isrealobj({a0})", f"not jnp.iscomplexobj({a0})") and \
-            src(nd.body) == f"{a0}.size" and src(nd.orelse).replace(" ", "") in (f"2*{a0}.size", f"{a0}.size*2")
-        if isinstance(nd, ast.IfExp) and src(nd.test) == f"jnp.iscomplexobj({a0})":
-            okk = src(nd.orelse) == f"{a0}.size" and src(nd.body).replace(" ", "") in (f"2*{a0}.size", f"{a0}.size*2")
-        ctx.check("R36.1", f"{rp.key}::ndof = size (real) / 2*size (complex)", okk, src(nd), rp)
+        from fractions import Fraction
+        from ..poly import poly, p_str
+
+        def norm_term(e, cplx):
+            """rational normal form over the atoms SUM = sum(x), VD = vdot(x,x).real, N = x.size (ndof resolved for real/complex)"""
+            import copy
+
+            class R(ast.NodeTransformer):
+                def visit_IfExp(self, node):
+                    t = src(node.test).replace(" ", "")
+                    if t in (f"jnp.isrealobj({a0})", f"notjnp.iscomplexobj({a0})"):
+                        return self.visit(node.orelse if cplx else node.body)
+                    if t in (f"jnp.iscomplexobj({a0})", f"notjnp.isrealobj({a0})"):
+                        return self.visit(node.body if cplx else node.orelse)
+                    return self.generic_visit(node)
+
+                def visit_Call(self, node):
+                    t = src(node).replace(" ", "")
+                    if t in (f"jnp.sum({a0})", f"{a0}.sum()"):
+                        return ast.Name(id="SUM", ctx=ast.Load())
+                    if t in (f"jnp.mean({a0})", f"{a0}.mean()"):
+                        return ast.BinOp(left=ast.Name(id="SUM", ctx=ast.Load()), op=ast.Div(), right=ast.Name(id="N", ctx=ast.Load()))
+                    return self.generic_visit(node)
+
+                def visit_Attribute(self, node):
+                    t = src(node).replace(" ", "")
+                    if t == f"{a0}.size":
+                        return ast.Name(id="N", ctx=ast.Load())
+                    if t in (f"jnp.vdot({a0},{a0}).real", f"jnp.vdot({a0},{a0})"):
+                        return ast.Name(id="VD", ctx=ast.Load())
+                    if t in (f"jnp.dot({a0},{a0}).real", f"({a0}*{a0}).sum().real", f"jnp.sum({a0}*{a0}).real", f"jnp.sum({a0}**2).real"):
+                        return ast.Name(id="UNCONJUGATED_SQUARE", ctx=ast.Load())   # x.x without conjugation: not |x|^2 for complex x
+                    return self.generic_visit(node)
+            e2 = R().visit(copy.deepcopy(e))
+            return _ratio(e2)
+
+        def _ratio(e):
+            """(numerator poly, denominator poly) of an expression with +,-,*,/ over names and constants"""
+            from ..poly import p_mul, p_add, p_const, p_sym
+            if isinstance(e, ast.Name):
+                return p_sym(e.id), p_const(1)
+            if isinstance(e, ast.Constant) and isinstance(e.value, (int, float)) and not isinstance(e.value, bool):
+                return p_const(e.value), p_const(1)
+            if isinstance(e, ast.BinOp):
+                (an, ad), (bn, bd) = _ratio(e.left), _ratio(e.right)
+                if isinstance(e.op, ast.Mult):
+                    return p_mul(an, bn), p_mul(ad, bd)
+                if isinstance(e.op, ast.Div):
+                    return p_mul(an, bd), p_mul(ad, bn)
+                if isinstance(e.op, (ast.Add, ast.Sub)):
+                    return p_add(p_mul(an, bd), p_mul(bn, ad), 1 if isinstance(e.op, ast.Add) else -1), p_mul(ad, bd)
+            raise KeyError(src(e))
+
+        def same_ratio(r, want):
+            from ..poly import p_mul
+            return p_mul(r[0], want[1]) == p_mul(want[0], r[1])
+        from ..poly import p_sym, p_const, p_mul
+        els = [inline_at(cfg, rd, rets[0].id, e, depth=3) for e in rets[0].ast.value.elts]
+        verd = {"mean": True, "chi": True, "ndof": True}
+        det = {}
+        try:
+            for cplx in (False, True):
+                f = 2 if cplx else 1
+                mean_r, chi_r, nd_r = [norm_term(e, cplx) for e in els]
+                want_mean = (p_sym("SUM"), p_sym("N"))
+                want_nd = (p_mul(p_const(f), p_sym("N")), p_const(1))
+                want_chi = (p_sym("VD"), p_mul(p_const(f), p_sym("N")))
+                tag = "complex" if cplx else "real"
+                if not same_ratio(mean_r, want_mean):
+                    verd["mean"] = False
+                    det["mean"] = f"{tag} input: mean = ({p_str(mean_r[0])})/({p_str(mean_r[1])}), documented sum(x)/size"
+                if not same_ratio(chi_r, want_chi):
+                    verd["chi"] = False
+                    det["chi"] = f"{tag} input: reduced chi-square = ({p_str(chi_r[0])})/({p_str(chi_r[1])})"
+                if not same_ratio(nd_r, want_nd):
+                    verd["ndof"] = False
+                    det["ndof"] = f"{tag} input: ndof = ({p_str(nd_r[0])})/({p_str(nd_r[1])})"
+        except KeyError as exc:
+            verd = {k: None for k in verd}
+            det = {k: f"term outside the rational fragment: {exc}" for k in verd}
+        ctx.check("R36.1", f"{rp.key}::mean = sum(x)/size", verd["mean"], det.get("mean") or src(els[0]), rp)
+        ctx.check("R36.1", f"{rp.key}::reduced chi-square = vdot(x, x).real/ndof", verd["chi"], det.get("chi") or src(els[1]), rp)
+        ctx.check("R36.1", f"{rp.key}::ndof = size (real) / 2*size (complex)", verd["ndof"], det.get("ndof") or src(els[2]), rp)
     rs = ms.functions.get("reduced_residual_stats")
     if rs is not None:
         ctx.saw_func(rs)
